@@ -44,7 +44,7 @@ pub fn built_items(cfg: &BuildCfg, dir: &Path, keys: &[Key], rng: &mut Rng, with
     if with_sign && !keys.is_empty() {
         let mut p = pkg.clone();
         // cheap keys most of the time
-        let k1 = &keys[[2usize, 3, 2, 3, 0, 2, 3, 1][rng.usize(8)] % keys.len()];
+        let k1 = &keys[[2usize, 3, 4, 3, 0, 2, 4, 1][rng.usize(8)] % keys.len()];
         let ts = cfg.source_date.unwrap_or(1_600_000_000);
         match guard(|| p.sign_with_timestamp(&k1.signer, ts)) {
             Ok(Ok(())) => emit(&mut out, format!("built+sign({})", k1.name), Origin::Builder, Some(cfg), &p)?,
@@ -57,7 +57,7 @@ pub fn built_items(cfg: &BuildCfg, dir: &Path, keys: &[Key], rng: &mut Rng, with
             Err(pn) => return Err(CorpusErr::Panic(format!("clear:{}", pn.site()), pn.message)),
         }
         if rng.bool() {
-            let k2 = &keys[[3usize, 2][rng.usize(2)] % keys.len()];
+            let k2 = &keys[[3usize, 2, 4][rng.usize(3)] % keys.len()];
             match guard(|| p.sign_with_timestamp(&k2.signer, ts)) {
                 Ok(Ok(())) => emit(&mut out, format!("built+sign+clear+sign({})", k2.name), Origin::Builder, Some(cfg), &p)?,
                 Ok(Err(e)) => return Err(CorpusErr::Err("sign".into(), e.to_string())),
